@@ -321,6 +321,7 @@ pub fn c08_arrival_family(rep: &mut Report) {
         schedule: Vec<String>,
         lang: Lang,
         multi: bool,
+        same_crate: bool,
     }
     let srcs = c08_sources();
     let thorough = rep.thorough();
@@ -339,32 +340,39 @@ pub fn c08_arrival_family(rep: &mut Report) {
             }
             // `bad_alone`: the offending item is the only annotated item of its file (one type per file)
             let bad_src = if bad_alone { strip_good_item(&bad_src) } else { bad_src.clone() };
-            let files: Vec<(String, String)> = vec![
-                ("fbad".to_string(), bad_src.clone()),
-                if two_bad { ("fbad2".to_string(), bad2_src.clone()) } else { ("fgood1".to_string(), e3::good_source("fgood1")) },
-                ("fgood2".to_string(), e3::good_source("fgood2")),
-            ];
-            let bad: Vec<String> = if two_bad { vec![s("fbad"), s("fbad2")] } else { vec![s("fbad")] };
-            let stems: Vec<&str> = files.iter().map(|f| f.0.as_str()).collect();
-            for perm in &perms3 {
-                for &lang in &langs {
-                    for multi in [false, true] {
+            // layouts: single-file; multi-file with all files in one crate; multi-file with a crate per file, the offending
+            // crate sorting before the clean ones (stem fbad) or after them (stem zbad)
+            for (multi, same_crate, bad_stem, mode) in [(false, true, "fbad", "single"), (true, true, "fbad", "multi-same-crate"), (true, false, "fbad", "multi-crate-per-file-bad-first"), (true, false, "zbad", "multi-crate-per-file-bad-last")] {
+                let files: Vec<(String, String)> = vec![
+                    (bad_stem.to_string(), bad_src.clone()),
+                    if two_bad { ("fbad2".to_string(), bad2_src.clone()) } else { ("fgood1".to_string(), e3::good_source("fgood1")) },
+                    ("fgood2".to_string(), e3::good_source("fgood2")),
+                ];
+                let bad: Vec<String> = if two_bad { vec![s(bad_stem), s("fbad2")] } else { vec![s(bad_stem)] };
+                let stems: Vec<&str> = files.iter().map(|f| f.0.as_str()).collect();
+                for perm in &perms3 {
+                    // the crate-per-file layouts: identity and reversal of the arrival order (the order of the crates decides there)
+                    if !same_crate && perm != &perms3[0] && perm != &perms3[5] {
+                        continue;
+                    }
+                    for &lang in &langs {
                         let mut schedule = e3::start_barrier(&stems);
                         schedule.extend(perm.iter().map(|i| format!("send:{}", stems[*i])));
                         jobs.push(Job {
-                            label: format!("construct={}|bad_files={}|alone={}|order={}|mode={}", c.0, bad.len(), bad_alone as u8, perm.iter().map(|i| stems[*i]).collect::<Vec<_>>().join(">"), if multi { "multi-same-crate" } else { "single" }),
+                            label: format!("construct={}|bad_files={}|alone={}|order={}|mode={mode}", c.0, bad.len(), bad_alone as u8, perm.iter().map(|i| stems[*i]).collect::<Vec<_>>().join(">").replace("zbad", "fbad")),
                             files: files.clone(),
                             bad: bad.clone(),
                             schedule,
                             lang,
                             multi,
+                            same_crate,
                         });
                     }
                 }
             }
         }
     }
-    let results = par_map(&jobs, crate::report::threads(), |j| e3::replay_layout(&j.files, &j.schedule, j.lang, j.multi, true, 3, &[]));
+    let results = par_map(&jobs, crate::report::threads(), |j| e3::replay_layout(&j.files, &j.schedule, j.lang, j.multi, j.same_crate, 3, &[]));
     let mut rejected = 0u64;
     for (j, r) in jobs.iter().zip(results.iter()) {
         let detail = |what: &str| json!({"argv": r.argv, "schedule": r.schedule, "files": j.files.iter().map(|(p, b)| json!({"stem": p, "content": b})).collect::<Vec<_>>(), "exit_code": r.code, "stderr": r.stderr.chars().take(1500).collect::<String>(), "observation": what, "lang": j.lang.name()});
@@ -388,7 +396,7 @@ pub fn c08_arrival_family(rep: &mut Report) {
     }
     rep.cov(
         "cli_rejection_arrival_orders",
-        json!({"runs": jobs.len(), "rejected_with_error": rejected, "files_per_run": 3, "orders": 6, "bad_files": [1, 2], "offending_item_alone_in_its_file": [false, true], "modes": ["single-file", "multi-file, one crate"],
+        json!({"runs": jobs.len(), "rejected_with_error": rejected, "files_per_run": 3, "orders": 6, "bad_files": [1, 2], "offending_item_alone_in_its_file": [false, true], "modes": ["single-file", "multi-file, one crate", "multi-file, a crate per file: offending crate sorts first / last"],
                "constructs": constructs.iter().map(|c| c.0).collect::<Vec<_>>(), "languages": langs.iter().map(|l| l.name()).collect::<Vec<_>>(), "how": "each file is its own walk root; the hooks release the sends in the given order, so the collector folds the files in exactly that order"}),
     );
     rep.cov_add("evaluations", jobs.len() as u64);
